@@ -212,16 +212,26 @@ def evalLine (line : String) : String :=
         if op == "start" then
           let (s1, o) := Svc.step st .start
           go s1 ((match o with | .started => "started" | .startNoop => "startNoop" | _ => "startRefused") :: acc) rest
-        else if op == "stop" || op.startsWith "closed" then
-          let cause := if op == "stop" then none else some "lost"
+        else if op == "stop" || op.startsWith "closed" || op == "stopc" || op == "stoph" then
+          -- `stopc` / `stoph`: a WebSocket upgrade / an HTTP request arrives between the two
+          -- locked sections of Stop (sockets already closed, messaging client still closing)
+          let cause := if op.startsWith "closed" then some "lost" else none
           let (s1, o) := Svc.step st (.stopBegin cause)
+          let (s1, acc1) :=
+            if op == "stopc" then
+              let (sa, oa) := Svc.step s1 .connect
+              (sa, (match oa with | .connected => "connected" | _ => "refused") :: acc)
+            else if op == "stoph" then
+              let (_, oa) := Svc.step s1 .connect
+              (s1, (match oa with | .connected => "401" | _ => "503") :: acc)
+            else (s1, acc)
           match o with
-          | .stopNoop => go s1 ("stopNoop" :: acc) rest
+          | .stopNoop => go s1 ("stopNoop" :: acc1) rest
           | _ =>
             let (s2, o2) := Svc.step s1 .stopEnd
             match o2 with
-            | .stopped c n => go s2 (s!"stopped:{c.getD "nil"}:closed={n}" :: acc) rest
-            | _ => go s2 ("?" :: acc) rest
+            | .stopped c n => go s2 (s!"stopped:{c.getD "nil"}:closed={n}" :: acc1) rest
+            | _ => go s2 ("?" :: acc1) rest
         else if op == "conn" then
           let (s1, o) := Svc.step st .connect
           go s1 ((match o with | .connected => "connected" | _ => "refused") :: acc) rest
